@@ -21,6 +21,15 @@ def secret_of(c, ln):
     return {"zero": bytes(ln), "ff": b"\xff" * ln}.get(c["sc"]) or expand(c["seed"] + "s", ln)
 
 
+def drawn(T, fn, thr, ln):
+    """the sharing algorithm of STB 34.101.60 uses (threshold - 1) * len generator octets: drawing more (or less) shifts the stream, so that the next sharing
+    on the same generator state no longer gives the shares the standard defines for that generator"""
+    pos = int.from_bytes(T.read(0, 8), "little")
+    if pos != (thr - 1) * ln:
+        raise Fail("%s (threshold %d, len %d) drew %d octets from the generator, the algorithm uses (threshold - 1) * len = %d: the next sharing on this generator state differs from the standard" %
+                   (fn, thr, ln, pos, (thr - 1) * ln))
+
+
 def run_share(ctx, c):
     x = ctx.x
     ln, cnt = c["len"], c["count"]
@@ -34,9 +43,11 @@ def run_share(ctx, c):
     k = {"zero": bytes((thr - 1) * ln), "ff": b"\xff" * ((thr - 1) * ln)}.get(c["kc"]) or expand(c["seed"] + "k", (thr - 1) * ln)
     if c["keys"] == "std":
         o = x.out(cnt * (ln + 1))
-        r = x.call("belsShare2", o, cnt, thr, ln, x.buf(s), GEN, x.tape(k, mode=1))
+        T = x.tape(k, mode=1)
+        r = x.call("belsShare2", o, cnt, thr, ln, x.buf(s), GEN, T)
         if r:
             raise Fail("belsShare2 failed: %s" % ename(r))
+        drawn(T, "belsShare2", thr, ln)
         sh = [o.read()[i * (ln + 1):(i + 1) * (ln + 1)] for i in range(cnt)]
         exp = RB.share2(s, cnt, thr, k)
         if sh != exp:
@@ -104,9 +115,11 @@ def run_share(ctx, c):
         if len(set(mis)) != len(mis) or m0 in mis:
             return      # colliding identifiers: not an admissible key set
         o = x.out(cnt * ln)
-        r = x.call("belsShare", o, cnt, thr, ln, x.buf(s), m0b, x.buf(b"".join(mis)), GEN, x.tape(k, mode=1))
+        T = x.tape(k, mode=1)
+        r = x.call("belsShare", o, cnt, thr, ln, x.buf(s), m0b, x.buf(b"".join(mis)), GEN, T)
         if r:
             raise Fail("belsShare failed: %s" % ename(r))
+        drawn(T, "belsShare", thr, ln)
         sh = [o.read()[i * ln:(i + 1) * ln] for i in range(cnt)]
         if sh != RB.share(s, cnt, thr, m0, mis, k):
             raise Fail("belsShare != model (len=%d count=%d threshold=%d keys=%s)" % (ln, cnt, thr, c["keys"]))
